@@ -84,6 +84,9 @@ def run_compiled(cases, tag, flavor, want, batch_size=150, keep=None):
             for pn in list(m.probes):
                 m.probes[pn] = m.probes[pn].replace("__WGSL__", "m%d.wgsl" % m.idx)
             inc = by_id[cid].get("opts", {}).get("include")
+            # the include variant: the file the generated `include_str!` names is put where the documentation says it has to be
+            if inc and not inc.startswith(("/", "~")) and ".." not in inc and "\\" not in inc and all(0x20 <= ord(ch) < 0x7f for ch in inc) and inc.endswith(".wgsl"):
+                m.extra_files = {inc: wgsl}
             mods[cid] = m
         b.build()
         rt = b.run()
